@@ -89,7 +89,10 @@ def _run_harness(ctx, sched_path, outdir, timeout):
     try:
         p = subprocess.run([ctx["hbin"], "-seed", str(ctx["seed"]), "-sched", sched_path, "-out", outdir, "-progress", prog],
                            capture_output=True, text=True, timeout=timeout, env=ctx["runner"].GOENV)
-        rc, out = p.returncode, (p.stdout + p.stderr)[-3000:]
+        full = p.stdout + p.stderr
+        m = re.search(r"^(fatal error:|panic:).*$", full, re.M)
+        out = (full[m.start():m.start() + 2500] if m else full[-3000:])
+        rc = p.returncode
     except subprocess.TimeoutExpired:
         rc, out = -9, "harness timed out"
     if rc != 0 or not os.path.exists(os.path.join(outdir, "stats.json")):
@@ -122,7 +125,7 @@ def run(ctx):
         m = re.search(r"while executing schedule: (.*)", msg)
         cur = m.group(1).strip() if m else ""
         stats = {"evaluations": 0, "oracle_failures": [{"signature": "harness-died:" + (cur.split("::")[0].strip() if cur else "?"),
-                 "what": "the implementation crashed or hung the harness process (fatal error such as unlock of an unlocked mutex, or an unbounded wait)\n" + msg[-1500:],
+                 "what": "the implementation crashed or hung the harness process (fatal error such as unlock of an unlocked mutex, or an unbounded wait)\n" + msg[:1800],
                  "replay": cur or "\n".join(lines[:1])}]}
         return {"stats": stats, "disagreements": dis, "compared": 0, "broken": [("harness-run", "c11", msg[-2000:])]}
     stats = json.load(open(os.path.join(rundir, "stats.json")))
